@@ -218,6 +218,14 @@ func (f *Interface) handleOutsideRelayPacket(hostinfo *HostInfo, via ViaSender, 
 		}
 		f.readOutsidePackets(via, signedPayload, rxc)
 	case ForwardingType:
+		// Only forward while we are configured as a relay, a reload may have turned relay.am_relay off
+		// after this relay was negotiated
+		if !f.relayManager.GetAmRelay() {
+			if f.l.Enabled(context.Background(), slog.LevelDebug) {
+				hostinfo.logger(f.l).Debug("Not forwarding, am_relay is off", "relayTo", relay.PeerAddr)
+			}
+			return
+		}
 		// Find the target HostInfo relay object
 		targetHI, targetRelay, err := f.hostMap.QueryVpnAddrsRelayFor(hostinfo.vpnAddrs, relay.PeerAddr)
 		if err != nil {
